@@ -285,7 +285,7 @@ def main(argv=None):
         return 1
     if inconclusive:
         for s in inconclusive[:5]:
-            print('INCONCLUSIVE property=%s reason=%s' % (prop, s.replace('\n', ' | ')[:1500]))
+            print('INCONCLUSIVE property=%s reason=%s' % (prop, s.replace('\n', ' | ')[-700:]))
         return 2
     return 0
 
